@@ -1,5 +1,89 @@
-/- Line-protocol driver for the C11 model (stub until the model exists). -/
-import ForML.Model.Sexp
-open ForML
+/- Line-protocol driver for the C11 model (ForML.Model.Graph).
 
-def main : IO Unit := driverLoop (fun _ => .atom "no-model")
+  in : (seq op …)   op ::= (mkworker <bool> szin szout) | (mkfuture szin szout) | (fork n)
+                          | (sub s j p i) | (train n tp ti lp li) | (segment h t|none) | (validate h t|none)
+     | (seqf op …)  same ops, answers ((res …) (outs regs workers)): all results, final state only
+  out: ((res outs regs workers) …) one record per op
+-/
+import ForML.Model.Sexp
+import ForML.Model.Graph
+open ForML ForML.Graph
+
+/-- port code shared with the harness: Train 0, Label 1, Apply(i) i+2 -/
+def portCode : Port → Nat
+  | .train => 0
+  | .label => 1
+  | .apply i => i + 2
+
+def errS : Err → String
+  | .shape => "shape" | .double => "double" | .collision => "collision"
+  | .publishingTrained => "publishing-trained" | .futureSubscribing => "future-subscribing"
+  | .self => "self" | .trainedPublishing => "trained-publishing" | .stateless => "stateless"
+  | .forkTrain => "fork-train" | .cyclic => "cyclic" | .ambiguous => "ambiguous"
+  | .disconnected => "disconnected" | .simpleHead => "simple-head" | .simpleTail => "simple-tail"
+  | .futures => "futures" | .recursion => "recursion" | .noNode => "no-node"
+
+def resS : Res → Sexp
+  | .ok => .list [.atom "ok"]
+  | .node n => .list [.atom "node", Sexp.ofNat n]
+  | .err e => .list [.atom "err", .atom (errS e)]
+
+/-- (outs regs workers): what the harness dumps from the real objects after every call -/
+def stateS (g : G) : List Sexp :=
+  let idx := List.range g.nodes.length
+  let outs := idx.map (fun n =>
+    let szout := (g.nodes.getD n default).szout
+    Sexp.list ((List.range szout).map (fun i =>
+      Sexp.list ((out g n i).map (fun s => Sexp.ofNats [s.node, portCode s.port])))))
+  let regs := (idx.filter (isFuture g)).flatMap (fun f =>
+    (g.regs.filter (fun r => r.fut = f)).map (fun r => Sexp.ofNats [r.fut, r.idx, r.pub, r.out]))
+  let workers := (idx.filter (isWorker g)).map (fun n =>
+    Sexp.list [Sexp.ofNat n, Sexp.ofBool (trained g n), Sexp.ofBool (derived g n), Sexp.ofNats (group g n),
+               Sexp.ofNats (((inputs g n).map portCode).mergeSort (· ≤ ·))])
+  [.list outs, .list regs, .list workers]
+
+def bool? : Sexp → Option Bool
+  | .atom "true" => some true
+  | .atom "false" => some false
+  | _ => none
+
+def optNat? : Sexp → Option (Option Nat)
+  | .atom "none" => some none
+  | x => x.nat?.map some
+
+def op? : Sexp → Option Op
+  | .list [.atom "mkworker", st, i, o] => do pure (.mkWorker (← bool? st) (← i.nat?) (← o.nat?))
+  | .list [.atom "mkfuture", i, o] => do pure (.mkFuture (← i.nat?) (← o.nat?))
+  | .list [.atom "fork", n] => do pure (.fork (← n.nat?))
+  | .list [.atom "sub", s, j, p, i] => do pure (.subscribe (← s.nat?) (← j.nat?) (← p.nat?) (← i.nat?))
+  | .list [.atom "train", n, tp, ti, lp, li] => do
+    pure (.train (← n.nat?) (← tp.nat?) (← ti.nat?) (← lp.nat?) (← li.nat?))
+  | .list [.atom "segment", h, t] => do pure (.segment (← h.nat?) (← optNat? t))
+  | .list [.atom "validate", h, t] => do pure (.validate (← h.nat?) (← optNat? t))
+  | _ => none
+
+def runSeq (g : G) : List Op → List Sexp
+  | [] => []
+  | op :: ops =>
+    let r := step g op
+    Sexp.list (resS r.2 :: stateS r.1) :: runSeq r.1 ops
+
+/-- results of every op, state after the last one only (exhaustive enumeration: prefixes are cases of their own) -/
+def runFinal (g : G) : List Op → List Sexp → Sexp
+  | [], acc => .list [.list acc.reverse, .list (stateS g)]
+  | op :: ops, acc =>
+    let r := step g op
+    runFinal r.1 ops (resS r.2 :: acc)
+
+def stepC11 : Sexp → Sexp
+  | .list (.atom "seq" :: ops) =>
+    match ops.mapM op? with
+    | some ops => .list (runSeq init ops)
+    | none => .atom "bad-op"
+  | .list (.atom "seqf" :: ops) =>
+    match ops.mapM op? with
+    | some ops => runFinal init ops []
+    | none => .atom "bad-op"
+  | _ => .atom "bad-op"
+
+def main : IO Unit := driverLoop stepC11
